@@ -4,11 +4,13 @@ import (
 	"fmt"
 	"sort"
 	"testing"
+	"time"
 
 	"pgregory.net/rapid"
 
 	"verif/harness/evid"
 	"verif/harness/lang"
+	"verif/harness/leak"
 	"verif/harness/progs"
 	"verif/harness/ref"
 )
@@ -104,7 +106,11 @@ func TestReplay(t *testing.T) {
 		if c.Text == "" {
 			c.Text = lang.Render(c.Prog.Body)
 		}
-		if msg, _ := check(c); msg != "" {
+		msg, _ := check(c)
+		// goroutines the case may have left behind get the chance to fail now (a panic
+		// there kills this process, which the isolated replay counts as a failure)
+		leak.Settle(2*time.Second, 200*time.Millisecond)
+		if msg != "" {
 			evid.ReplayFailed(t, path, msg)
 		} else {
 			evid.ReplayPassed(path)
